@@ -127,8 +127,10 @@ def begin(chk, crate):
         return is_call(e, "HashMap::<K, V, S, A>::len") and mentions_path(e, "self", ("transactions",))
 
     def is_max(e):
+        # the stored limit: a plain field of the client (directly, or of the private struct that holds the map) - which
+        # field it is, is settled by C07-b/limit-source (it must hold config.transactions_max_num)
         e = strip_ref(e)
-        return e[0] == "path" and e[1] == "self" and e[2] == ("transactions_max_num",)
+        return e[0] == "path" and e[1] == "self" and len(e[2]) in (1, 2) and all(isinstance(x, str) and not x.startswith(("@", "[")) for x in e[2])
 
     def full_guard(e):
         return e[0] == "bin" and e[1] in ("Eq", "Ge", "Lt", "Gt", "Le") and (
@@ -472,16 +474,36 @@ def limit_source(ctx, chk):
         return
     i, st = found[0]
     fields = st["rv"].get("fields") or []
-    if not chk.require("transactions_max_num" in fields, "C07-b/limit-source", "Feig::new", "field transactions_max_num not initialised", "",
+    # which field the capacity guard of begin_transaction compares the map's length with
+    chain = ("transactions_max_num",)
+    try:
+        fb = Fn(crate, "begin_transaction")
+        for bb_, e_, tt_, ft_ in fb.bool_switches(lambda e: e[0] == "bin" and e[1] in ("Eq", "Ge", "Lt", "Gt", "Le")):
+            for a_, b_ in ((e_[2], e_[3]), (e_[3], e_[2])):
+                if is_call(a_, "HashMap::<K, V, S, A>::len") and mentions_path(a_, "self", ("transactions",)):
+                    b2 = strip_ref(b_)
+                    if b2[0] == "path" and b2[1] == "self" and b2[2]:
+                        chain = tuple(b2[2])
+    except KeyError:
+        pass
+    if not chk.require(chain[0] in fields, "C07-b/limit-source", "Feig::new", "field %s not initialised" % chain[0], "",
                        body.sp()):
         return
-    op = st["rv"]["ops"][fields.index("transactions_max_num")]
+    op = st["rv"]["ops"][fields.index(chain[0])]
     pe = ps.PathEval(body, {})
     ok = True
     why = ""
     for path in ps.simple_paths(body, 0, i)[:16]:
         env, _ = pe.run(path + [i] if path[-1] != i else path)
         e = ps.norm(pe.operand(op, env))
+        # a limit kept inside the private struct that holds the map: follow the field chain into that struct's construction
+        for nm_ in chain[1:]:
+            e2 = ps.strip(e)
+            if e2[0] == "agg" and nm_ in (e2[3] or ()):
+                e = ps.norm(e2[2][list(e2[3]).index(nm_)])
+            else:
+                e = ("konst", "field %s of %s" % (nm_, ps.show(e2)[:60]))
+                break
         root, names = ps.field_chain(e)
         # async fn: the parameter is the coroutine's captured `config` (upvar 0); sync: parameter 1
         is_param = root[0] == "pre" or (root[0] == "field" and ps.field_chain(root)[0][0] == "pre")
